@@ -33,8 +33,14 @@ func init() {
 	}
 	r7Wrap("C01", r7C01)
 	r7Wrap("C04", r7C01)
-	for _, id := range []string{"C01", "C02", "C06", "C08"} {
-		r7Wrap(id, r7DW)
+	for id, apis := range map[string][]string{
+		"C01": {"writeheader", "writeframe"},
+		"C02": {"cipherwriter"},
+		"C06": {"writemessage", "writer", "writerreadfrom", "writethrough"},
+		"C08": {"control", "ping"},
+	} {
+		apis := apis
+		r7Wrap(id, func(c *ctx) { r7DW(c, apis) })
 	}
 	replayers["DW"] = func(c *ctx, in []string) {
 		var side, n int
@@ -258,8 +264,7 @@ func dw(c *ctx, api, dress string, side byte, n int) {
 	c.emit("DW %s %s %d %d -> %d %s %s", api, dress, side, n, b2i(a == b), a, b)
 }
 
-func r7DW(c *ctx) {
-	apis := []string{"writeheader", "writeframe", "writemessage", "writer", "writerreadfrom", "writethrough", "control", "cipherwriter", "ping"}
+func r7DW(c *ctx, apis []string) {
 	k := 0
 	for _, api := range apis {
 		for _, dress := range dwDresses {
